@@ -341,9 +341,25 @@ def run(check: core.Check) -> None:
     if len(uniq) < num // 4:
         raise core.MachineryError(f"simulation produced only {len(uniq)} distinct cases")
     judge(check, list(uniq.values()), "tlc-simulate", n_visitor=300 if quick else 3000, rnd=rnd)
+    # 4. the entry points in front of Signature.can_assign: overrides (class hierarchies), Callable[[..], R] parameters,
+    # protocol methods (spec/CallableRoutes.tla, harness/drivers/c07b.py)
+    from . import c07b
+
+    routes = c07b.run_slices(check, quick, rnd)
+    check.cov["sensitivity"] += "; " + routes["sensitivity"]
+    check.cov["exhaustive"] = bool(check.cov["exhaustive"] and routes["exhaustive"])
+    check.cov["model_cases"] += routes["model_cases"]
+    check.cov["replayed_cases"] += routes["replayed_cases"]
+    check.cov["simulated_cases"] += routes["simulated_cases"]
+    check.cov["rule"] += "; " + routes["rule"]
 
 
 def replay(check: core.Check, witness: dict) -> None:
+    if "route" in witness["case"]:
+        from . import c07b
+
+        c07b.judge(check, [witness["case"]], "replay", n_fresh=1)
+        return
     judge(check, [witness["case"]], "replay", n_visitor=1)
 
 
@@ -371,3 +387,6 @@ def selftest_binding(check: core.Check) -> None:
         if sorted(got) != sorted(expect[ob["tid"]]):
             raise core.MachineryError(f"binding self-test: {name}: expected {expect[ob['tid']]}, TLC said {got}")
     print("selftest-binding: ok")
+    from . import c07b
+
+    c07b.selftest()
